@@ -49,7 +49,10 @@ class WebsocketSession(object):
         # websocket gets a new one with every connect)
         self._state = websocket.state
         self._address = (websocket.host, websocket.port)
-        self._lock = threading.Lock()
+        # Reentrant: the garbage collector may finalise an abandoned
+        # event loop (which closes the socket) while this very thread
+        # is inside write() and holds the lock
+        self._lock = threading.RLock()
         self._sock = None
         self._poll_start = None
         self._next_ping = None
